@@ -161,7 +161,7 @@ func c06SQL(tier string, r *RNG, o *Out) error {
 			}
 			o1 := get(s1)
 			for h := 0; h < 2; h++ {
-				_, _ = s1.EmitSync(genRow(r, true).goMap())
+				quietSync(s1, genRow(r, true).goMap())
 			}
 			o2 := get(s1)
 			s2 := streamsql.New(streamsql.WithDiscardLog())
@@ -198,6 +198,10 @@ func c06Diff(tier string, r *RNG, o *Out) {
 		"json_valid(s)", "to_json(a)", "is_null(a)", "is_not_null(a)", "is_numeric(a)", "is_string(s)", "is_bool(c)",
 		"hex2dec(s)", "dec2hex(a)", "url_encode(s)", "chr(a)", "trunc(a, 1)", "atan2(a, b)", "bitand(a, b)",
 		"year(s)", "date_format(s, 'yyyy')", "array_length(s)", "json_extract(s, '$.a')",
+		// multi-character pads / needles / separators, lengths that are not multiples of the pad
+		"lpad(s, 7, 'xy')", "rpad(s, 6, 'abc')", "rpad(t, 4, '-+*')", "lpad(t, 3)", "replace(s, 'ab', 'xyz')",
+		"replace(t, 'zz', '')", "substring(s, 1)", "indexof(s, 'bc')", "startswith(s, 'ab')", "endswith(t, 'zz')",
+		"concat_ws('--', s, t)", "split(s, 'b')", "trunc(b, 0)", "round(a, 1)",
 	}
 	rows := 6
 	if tier == "thorough" {
@@ -237,7 +241,7 @@ func c06Diff(tier string, r *RNG, o *Out) {
 				other := genRow(r, true).goMap()
 				_ = bridgeObs(c, other)
 				if okSQL {
-					_, _ = s.EmitSync(other)
+					quietSync(s, other)
 				}
 			}
 			h2, b2, s2 := hand(), bridgeObs(c, copyMap(m)), sql()
